@@ -73,6 +73,7 @@ def cases(draw, tier="quick"):
     cfg["clause"] = clause
     if cfg["theory"]["TMC"] and cfg["meta"]["pto"] > 1:
         cfg["theory"]["PTO"] = cfg["meta"]["pto"] = 1
+    configs.split_orders(draw, cfg["theory"], cfg["meta"])
     return cfg
 
 
